@@ -581,6 +581,11 @@ pub fn gen_script(rng: &mut Rng, spec: &WorldSpec, built: &BuiltWorld, cfg: &str
                 }
             }
         }
+        if rng.chance(1, 6) {
+            // Dictionary.close() and then every kind of object is used once more: exceptions are fine, a dead
+            // interpreter is not (sequential scripts only: the executor skips it when the dictionary is shared)
+            ops.push(json!({"op":"close_then_use","t":rng.below(ntok)}));
+        }
         let script = json!({
             "script": si, "seed": seed, "dir": built.dir.display().to_string(), "config": cfg,
             "tokenizers": toks.iter().map(|t| json!({"mode": t.mode, "fields": t.fields, "projection": t.projection})).collect::<Vec<_>>(),
